@@ -87,6 +87,9 @@ func CalculateStagedRate(
 	if err != nil {
 		return nil, fmt.Errorf("parsing stages: %w", err)
 	}
+	if frequency <= 0 {
+		return nil, fmt.Errorf("iteration frequency %s must be positive", frequency)
+	}
 
 	calculator := NewRateCalculator(stages, startTime)
 	rateFn := api.WithJitter(calculator.Rate, jitterArg)
